@@ -56,7 +56,7 @@ class TLCResult:
 
 def _unquote(s: str) -> str:
 	body = s[1:-1]
-	return body.replace('\\"', '"').replace('\\\\', '\\')
+	return re.sub(r'\\(.)', r'\1', body)
 
 
 def run(module: str, cfg: str, *, workers: int | str = 'auto', mode: str = 'bfs', simulate: str = '', depth: int = 0, seed: int | None = None, env: dict | None = None, timeout: int = 600, metadir: str | None = None, coverage: bool = False, deadlock: bool = True, extra: list[str] | None = None, dfs_queue: bool = False, heap: str = '4g', cwd: str | None = None) -> TLCResult:
